@@ -42,7 +42,7 @@ class DocGen:
         used = set() if used is None else used
         items = []
         if k in ("interface", "union"):
-            if rng.random() < 0.12:
+            if rng.random() < 0.18:
                 # `__typename` reaches this selection only through a spread of a fragment on the same type (shared by every
                 # such selection of the document, and itself possibly a chain of two fragments)
                 items.append(["spread", self.typename_fragment(tname)])
@@ -50,7 +50,7 @@ class DocGen:
             else:
                 items.append(["typename"])
             used.add("__typename")
-            if rng.random() < 0.07 and depth < self.max_depth and s.possible(tname):
+            if rng.random() < 0.1 and depth < self.max_depth and s.possible(tname):
                 # exactly `{ __typename ...FragmentOnOneMember }`
                 m = rng.choice(s.possible(tname))
                 fn = self.fragment(m, depth + 1, forbid=set(used))
